@@ -665,9 +665,14 @@ class TextXVisitor(RRELVisitor):
                 return
 
             if isinstance(rule, OrderedChoice):
+                # Each branch starts from the assignments seen before the
+                # choice; what any branch assigns is seen after the choice.
+                assigned_in_branches = set()
                 for on in rule.nodes:
-                    oc_branch_set = set()
-                    _update_attr_multiplicities(on, oc_branch_set, mult)
+                    branch_set = set(oc_branch_set)
+                    _update_attr_multiplicities(on, branch_set, mult)
+                    assigned_in_branches |= branch_set
+                oc_branch_set |= assigned_in_branches
             else:
                 if isinstance(rule, OneOrMore):
                     mult = MULT_ONEORMORE
